@@ -36,7 +36,8 @@ type c14Op struct {
 	ClientCh uint64 `json:"client_challenge,omitempty"`
 	FlagsSet   uint32 `json:"flags_set,omitempty"`   // negotiate flags of the authenticate message switched on (key exchange, sign, seal, ...)
 	FlagsClear uint32 `json:"flags_clear,omitempty"` // ... and off (128/56-bit, extended session security)
-	Layout   string `json:"message_layout,omitempty"` // MS-NLMP leaves version and MIC optional: "" both present, noversion, short, nomic
+	Layout   string `json:"message_layout,omitempty"`
+	B64Tail  string `json:"base64_tail,omitempty"` // appended to the base64 text of the message: the text no longer decodes // MS-NLMP leaves version and MIC optional: "" both present, noversion, short, nomic
 }
 
 type c14Case struct {
@@ -46,7 +47,7 @@ type c14Case struct {
 }
 
 var c14Names = []string{"alice", "Alice", "ALICE", "bob", "carol", "dave", "admin", "Admin", "nobody"}
-var c14Passwords = []string{"", "pw-a", "pw-b", "Pässwörd-ü", "pw-a", "correct horse"}
+var c14Passwords = []string{"", "pw-a", "pw-b", "Pässwörd-ü", "pw-a", "correct horse", "correct horse ", " pw-a", "pw-b\n", "\tpw-b", " "}
 
 func genC14(t *rapid.T) c14Case {
 	var c c14Case
@@ -92,6 +93,9 @@ func genC14(t *rapid.T) c14Case {
 				op.ChalOf = -3 // proof computed over an empty (zero-length) server challenge
 			}
 			op.ClientCh = rapid.Uint64().Draw(t, "clientChallenge")
+			if rapid.IntRange(0, 9).Draw(t, "badTail") == 0 {
+				op.B64Tail = rapid.SampledFrom([]string{"!", "\"", " QUJD", "====", "-_", "\x00", "%3D"}).Draw(t, "b64tail")
+			}
 			op.Layout = rapid.SampledFrom([]string{"", "", "", "noversion", "short", "nomic"}).Draw(t, "layout")
 			if rapid.IntRange(0, 5).Draw(t, "oddFlags") == 0 {
 				for _, f := range []uint32{0x40000000, 0x10, 0x20, 0x00000002, 0x00000004} {
@@ -140,6 +144,7 @@ type c14Sent struct {
 	claimed, domain  string
 	proof, blob      []byte
 	oddFlags         bool
+	undecodable      bool
 }
 
 func runC14(c c14Case) *Violation {
@@ -222,7 +227,7 @@ func runC14(c c14Case) *Violation {
 				msg, blob, proof := ntlmx.Authenticate(ntlmx.AuthSpec{User: op.Claimed, Domain: op.Domain, Workstation: "WS",
 					Key: ntlmx.NTOWFv2(op.KeyPass, op.KeyUser, op.Domain), ServerChallenge: src.ServerChallenge, TargetInfo: src.TargetInfo,
 					Timestamp: []byte{0, 0x80, 0x3e, 0xd5, 0xde, 0xb1, 0x9d, 0x01}, ClientChallenge: cc, Layout: op.Layout, FlagsSet: op.FlagsSet, FlagsClear: op.FlagsClear})
-				m = c14Sent{msg: base64.StdEncoding.EncodeToString(msg), claimed: op.Claimed, domain: op.Domain, proof: proof, blob: blob, oddFlags: op.FlagsSet != 0 || op.FlagsClear != 0}
+				m = c14Sent{msg: base64.StdEncoding.EncodeToString(msg) + op.B64Tail, undecodable: op.B64Tail != "", claimed: op.Claimed, domain: op.Domain, proof: proof, blob: blob, oddFlags: op.FlagsSet != 0 || op.FlagsClear != 0}
 				sent = append(sent, m)
 			}
 			r, err, pv := call(op.Session, m.msg)
@@ -237,6 +242,14 @@ func runC14(c c14Case) *Violation {
 			}
 			desc := fmt.Sprintf("op %d (%s) in session %d: message names %q, database %v, outstanding challenge %v, fresh %v -> Authenticated=%v Username=%q err=%v",
 				i, op.Op, op.Session, m.claimed, c.DB, s.chal != nil, s.fresh, r != nil && r.Authenticated, usernameOf(r), err)
+			if m.undecodable {
+				// the text is not base64: such a message is never authenticated, whatever a lenient decoder salvages from it
+				if r != nil && r.Authenticated {
+					return viol("c14/authenticated-garbage", "a message whose text does not decode as base64 (tail %q) was authenticated: %s", op.B64Tail, desc)
+				}
+				s.fresh = false
+				continue
+			}
 			if r != nil && r.Authenticated {
 				if !justified {
 					return viol("c14/authenticated-without-proof", "reported as authenticated although the message does not prove the configured password of the named user against this session's challenge: %s", desc)
